@@ -15,7 +15,7 @@ namespace {
 using namespace BaseGraph;
 
 struct Counters {
-    uint64_t graphs = 0, iterSteps = 0, ctorChecks = 0, copies = 0, filesWritten = 0, emptyGraphs = 0, zeroVertex = 0;
+    uint64_t remutated = 0, graphs = 0, iterSteps = 0, ctorChecks = 0, copies = 0, filesWritten = 0, emptyGraphs = 0, zeroVertex = 0;
     ObsCounters oc;
 } C;
 
@@ -95,6 +95,27 @@ template <class G> void c08(Reporter &R, const std::string &cls, const GraphSpec
         std::ostringstream os;
         os << g;
         R.digest(os.str() + snapshot(g));
+        if (s.n > 0) {
+            for (int round = 0; round < 3; ++round) {
+                VertexIndex i = r.u(s.n), j = r.u(s.n);
+                if (round == 0) i = 0;
+                Edge k = canon(s.directed, i, j);
+                if (x.e.count(k)) {
+                    if constexpr (IsMulti<G>::value) g.setEdgeMultiplicity(i, j, 0);
+                    else g.removeEdge(i, j);
+                    x.e.erase(k);
+                } else {
+                    Expect::Cell c;
+                    if constexpr (IsMulti<G>::value) { g.addMultiedge(i, j, 2); c.unit = 2; }
+                    else g.addEdge(i, j, 0.75);
+                    x.e[k] = c;
+                }
+                ++C.remutated;
+                e = checkIteration(g, x.e.size(), C.iterSteps);
+                if (e.empty()) e = checkStructure(g, x, C.oc);
+                if (!e.empty()) { R.violation(cls + "/edges()-after-mutation/" + obs(e), e + " after changing (" + std::to_string(i) + "," + std::to_string(j) + ") on " + s.str()); return; }
+            }
+        }
     } catch (std::exception &ex) {
         R.violation(cls + "/writer/threw", std::string("threw ") + ex.what() + " on " + s.str());
     }
@@ -189,6 +210,7 @@ template <class G> void c09(Reporter &R, const std::string &cls, const GraphSpec
 void flush(Reporter &R) {
     C.oc.flush(R);
     R.count("graphs_built", C.graphs);
+    R.count("enumerate_mutate_enumerate_rounds", C.remutated);
     R.count("edge_iteration_steps", C.iterSteps);
     R.count("constructor_checks", C.ctorChecks);
     R.count("copy_checks", C.copies);
